@@ -364,7 +364,7 @@ fn rules(a: &Alphabet, quick: bool) -> Vec<AccessRule> {
         }
     }
     // depth 2: op1([op2([x, y]), z]) and op1([z, op2([x, y])])
-    let d2: Vec<&BasicRequirement> = if quick { a.reps.iter().take(5).collect() } else { a.reps.iter().take(9).collect() };
+    let d2: Vec<&BasicRequirement> = if quick { a.reps.iter().take(4).collect() } else { a.reps.iter().take(9).collect() };
     for x in &d2 {
         for y in &d2 {
             if x == y {
@@ -488,7 +488,7 @@ fn judge(l: &mut Local, section: &str, rule: &AccessRule, vis: &Vis, got: Result
         Err(other) => {
             // neither success nor the authorization failure of the entry point: harness trouble, reported after the sweep
             l.class(&format!("{section}:other-failure"));
-            l.info(&format!("other-failure:{}", mc_core::truncate(&other, 160)));
+            l.class(&format!("detail:{section}:{}:other-failure", mc_core::truncate(&other, 140)));
             return;
         }
     };
